@@ -377,6 +377,7 @@ class VThread:
             raise RuntimeError("threads can only be started once")
         s = sim()
         self.task = s.spawn(lambda: self.target(*self.args, **self.kwargs), self.name)
+        self.task.vthread = self
         s.yield_("thread-start")
 
     def join(self, timeout=None):
@@ -394,6 +395,14 @@ class VThread:
 class _NS:
     def __init__(self, **kw):
         self.__dict__.update(kw)
+
+
+_MAIN_STUB = _NS(name="MainThread", ident=1)
+
+
+def vcurrent_thread():
+    """`threading.current_thread()` inside the simulation (code under test may ask who it is)"""
+    return getattr(sim().cur, "vthread", None) or _MAIN_STUB
 
 
 def _async_raise(thread, exc):
@@ -421,7 +430,7 @@ class _VTime:
 
 
 _PATCHES = [
-    ("nxslib.thread", "threading", lambda: _NS(Thread=VThread, Event=VEvent)),
+    ("nxslib.thread", "threading", lambda: _NS(Thread=VThread, Event=VEvent, current_thread=vcurrent_thread)),
     ("nxslib.comm", "queue", lambda: _NS(Queue=VQueue, Empty=Empty, Full=Full)),
     ("nxslib.comm", "Lock", lambda: VLock),
     ("nxslib.nxscope", "queue", lambda: _NS(Queue=VQueue, Empty=Empty, Full=Full)),
